@@ -692,15 +692,15 @@ func (h *history) coq() string {
 
 // fault catalogue per op kind: methods worth failing (the wrapper's Go method names)
 var faultMethods = map[string][]string{
-	"addnode":    {"Info", "AddNode", "AddNode", "RemoveNode"},
+	"addnode":    {"Info", "AddNode", "AddNode"},
 	"removenode": {"GetNode", "CreateLock", "Lock", "ListNodeWorkloads", "SetNodeStatus", "RemoveNode", "RemoveNode"},
 	"setnode":    {"GetNode", "Lock", "GetNodeResourceInfo", "SetNodeResourceCapacity", "UpdateNodes", "UpdateNodes"},
 	"create": {"GetNodesByPod", "CreateLock", "Lock", "Log", "Log", "GetNodesDeployCapacity", "GetDeployStatus", "Alloc", "Alloc", "CreateProcessing",
 		"GetNode", "ImageLocalDigests", "ImageRemoteDigest", "VirtualizationCreate", "AddWorkload", "AddWorkload", "VirtualizationStart", "VirtualizationStart",
-		"VirtualizationInspect", "Commit", "DeleteProcessing", "RollbackAlloc", "RemoveWorkload", "VirtualizationRemove"},
-	"remove":     {"GetWorkloads", "GetNode", "CreateLock", "Lock", "SetNodeResourceUsage", "SetNodeResourceUsage", "RemoveWorkload", "VirtualizationRemove", "VirtualizationRemove", "AddWorkload"},
+		"VirtualizationInspect", "Commit", "DeleteProcessing"},
+	"remove":     {"GetWorkloads", "GetNode", "CreateLock", "Lock", "SetNodeResourceUsage", "SetNodeResourceUsage", "RemoveWorkload", "VirtualizationRemove", "VirtualizationRemove"},
 	"dissociate": {"GetWorkloads", "GetNode", "Lock", "SetNodeResourceUsage", "SetNodeResourceUsage", "RemoveWorkload", "RemoveWorkload"},
-	"realloc":    {"GetWorkload", "GetNode", "Lock", "GetWorkloads", "Realloc", "UpdateWorkload", "UpdateWorkload", "VirtualizationUpdateResource", "VirtualizationUpdateResource", "RollbackRealloc"},
+	"realloc":    {"GetWorkload", "GetNode", "Lock", "GetWorkloads", "Realloc", "UpdateWorkload", "UpdateWorkload", "VirtualizationUpdateResource", "VirtualizationUpdateResource"},
 	"replace": {"GetWorkloads", "CreateLock", "GetNode", "ImageLocalDigests", "VirtualizationStop", "VirtualizationCreate", "Log", "AddWorkload", "VirtualizationStart",
 		"VirtualizationInspect", "RemoveWorkload", "RemoveWorkload", "VirtualizationRemove", "VirtualizationRemove", "AddWorkload"},
 	"lambda": {"Log", "Log", "Log", "GetWorkload", "VirtualizationLogs", "VirtualizationAttach", "VirtualizationWait", "GetWorkloads", "SetNodeResourceUsage", "RemoveWorkload",
